@@ -1,0 +1,50 @@
+//go:build verif
+
+package semap
+
+// Read-only accessors for the runtime monitors in /verif (build tag "verif").
+// They take the lock the package itself uses.
+
+func verifShard(m SemMapper, key interface{}) *SemMap {
+	switch x := m.(type) {
+	case *SemMap:
+		return x
+	case *WideSemMap:
+		return x.calculateKey(key)
+	}
+	return nil
+}
+
+// VerifKeyState reports the tokens held, the number of queued waiters and whether the
+// map currently keeps an entry for key.
+func VerifKeyState(m SemMapper, key interface{}) (held int, waiters int, present bool) {
+	var s = verifShard(m, key)
+	if s == nil {
+		return 0, 0, false
+	}
+	s.mux.Lock()
+	defer s.mux.Unlock()
+	var w, ok = s.m[key]
+	if !ok {
+		return 0, 0, false
+	}
+	return w.cur, w.waiters.Len(), true
+}
+
+// VerifEntries reports the number of per-key entries kept (summed over shards).
+func VerifEntries(m SemMapper) int {
+	var ms []*SemMap
+	switch x := m.(type) {
+	case *SemMap:
+		ms = []*SemMap{x}
+	case *WideSemMap:
+		ms = x.ms
+	}
+	var n int
+	for _, s := range ms {
+		s.mux.Lock()
+		n += len(s.m)
+		s.mux.Unlock()
+	}
+	return n
+}
